@@ -221,8 +221,77 @@ def switch_stream(rng, res):
     universe.run(cases, res, 'switch', project, oracle)
 
 
+def two_language_stream(res):
+    """displayed equations in English and German passages (multi-language
+    mode): each language goes through its own display collection -- the
+    placeholders of a language are those the same passages get when the
+    passages of the other language are taken out"""
+    eq = '\\begin{align}\n a &= b \\\\\n c &= d.\n\\end{align}\n'
+    de = ('\\begin{otherlanguage}{german}\nEin langer deutscher Satz mit Worten\n' + eq
+          + 'und noch mehr Text hier.\n\\end{otherlanguage}\n\n')
+    en = 'A long English sentence with words\n' + eq + 'and some more text here.\n\n'
+    head = '\\usepackage[german,english]{babel}\n'
+
+    def seq(tex, lang, key):
+        im = parsecase.run_t2t(parsecase.T2T(tex, lang='en-GB', pack='*', multi=True, files={}))
+        if im[0] != 'OK':
+            return None
+        phs = list(settings(key).math_repl_display)
+        txt = ' '.join(t for lg, t, p in universe.texts_of(im) if lg == lang)
+        return re.findall('|'.join(re.escape(x) for x in phs), txt)
+    cases = []
+    for order in ('ED', 'DE', 'EDE', 'DED', 'EEDD'):
+        tex = head + ''.join(de if ch == 'D' else en for ch in order)
+        cases.append((parsecase.T2T(tex, lang='en-GB', pack='*', multi=True, files={}), order,
+                      'two-languages'))
+
+    def oracle(c, order, kind, im):
+        if im[0] != 'OK':
+            return None
+        for lang, key, ch, passage in (('en-GB', 'en', 'E', en), ('de-DE', 'de', 'D', de)):
+            phs = list(settings(key).math_repl_display)
+            txt = ' '.join(t for lg, t, p in universe.texts_of(im) if lg == lang)
+            got = re.findall('|'.join(re.escape(x) for x in phs), txt)
+            want = seq(head + passage * order.count(ch), lang, key)
+            if want is not None and got != want:
+                return ('%s equations receive %r; without the passages of the other language '
+                        'they receive %r' % (lang, got, want))
+        return None
+    universe.run(cases, res, 'two-languages', project, oracle)
+
+
+def redefined_operator_stream(res):
+    """an operator macro that the document (or --defs) redefines is still an
+    operator at the head of an aligned section"""
+    cases = []
+    for defs_in_doc in (True, False):
+        for mac, new in (('\\le', '\\leqslant'), ('\\leq', '\\leqslant'), ('\\cdot', '\\bullet')):
+            d = '\\renewcommand{%s}{%s}\n' % (mac, new)
+            tex = ('Before we see\n\\begin{align}\n  a &%s b, \\\\\n  c &%s d.\n\\end{align}\nAfter that.\n'
+                   % (mac, mac))
+            for lang in ('en', 'de'):
+                c = parsecase.T2T((d if defs_in_doc else '') + tex, lang=lang, pack='*',
+                                  defs='' if defs_in_doc else d, files={})
+                cases.append((c, (mac, lang), 'redefined-operator'))
+
+    def oracle(c, meta, kind, im):
+        if im[0] != 'OK':
+            return None
+        mac, lang = meta
+        lc = settings(lang)
+        word = lc.math_op_text.get(mac, lc.math_op_text[None])
+        txt = im[1][1]
+        if txt.count(word) != 2:
+            return ('the redefined operator %s at the head of two aligned sections is rendered '
+                    'as %r: %r' % (mac, word, txt))
+        return None
+    universe.run(cases, res, 'redefined-operator', project, oracle)
+
+
 def run(tier, seed, build, res):
     _run_own(tier, seed, build, res)
+    two_language_stream(res)
+    redefined_operator_stream(res)
     # snippets of /repo's own tests and their mutations (harness/seeds.py)
     universe.run_seeds(random.Random(seed + 7), res, project, tier, share=0.6)
 
